@@ -163,6 +163,8 @@ func (c *tdxValidateCommand) runE(cmd *cobra.Command, args []string) error {
 			Overwrite:    s.overwrite,
 			BasePolicy:   s.basePolicy,
 			RootsOfTrust: rot,
+
+			ExpectedRAMGiB: s.ramGiB,
 		})
 }
 
